@@ -212,3 +212,11 @@ func registerCertExpirationMetric(promConfig PromConfig, cert *x509.Certificate,
 		return float64(time.Until(cert.NotAfter) / (24 * time.Hour))
 	}))
 }
+
+// redactDataURI hides the payload of inline (data:) certificates and keys in log messages.
+func redactDataURI(s string) string {
+	if strings.HasPrefix(s, "data:") {
+		return "data:xxxxx"
+	}
+	return s
+}
